@@ -101,11 +101,14 @@ def check (spec0):
             zen = MM.Angle (ax [0][0], ax [0][1], ax [0][2])
             azi = MM.Angle (ax [1][0], ax [1][1], ax [1][2])
             common.guarded (lambda: m.compute_far_field (zen, azi), 'compute_far_field')
-            rows = m.far_field.db_as_mininec ().split ('\n')
+            # both tables of one pattern, each printed twice
             mon ['far.rows'] = 1
-            if len (rows) != ax [0][2] * ax [1][2]:
-                viol.append (dict (monitor = 'far.rows', key = 'far-row-count'
-                                  , msg = '%d table rows for %d x %d angles' % (len (rows), ax [0][2], ax [1][2])))
+            for nm, fn in (('dBi', m.far_field.db_as_mininec), ('V/m', m.far_field.abs_gain_as_mininec), ('dBi again', m.far_field.db_as_mininec), ('V/m again', m.far_field.abs_gain_as_mininec)):
+                rows = [x for x in fn ().split ('\n') if x.strip ()]
+                if len (rows) != ax [0][2] * ax [1][2]:
+                    viol.append (dict (monitor = 'far.rows', key = 'far-row-count'
+                                      , msg = '%s table: %d rows for %d x %d angles' % (nm, len (rows), ax [0][2], ax [1][2])))
+                    break
         else:
             start = [a [0] for a in ax]
             inc   = [a [1] for a in ax]
@@ -123,6 +126,8 @@ def check (spec0):
         argv = ['-f', '28', '-w', '6,0,0,-2.5,0,0.3,2.5,0.002', '--excitation-pulse', '3']
         if spec ['kind'] == 'far':
             argv += ['--theta=%r,%r,%d' % tuple (ax [0]), '--phi=%r,%r,%d' % tuple (ax [1])]
+            if (ax [0][2] + ax [1][2]) % 2:
+                argv += ['--option', 'far-field', '--option', 'far-field-absolute', '--ff-distance', '100']
         else:
             argv += ['--near-field=' + ','.join ([repr (a [0]) for a in ax] + [repr (a [1]) for a in ax] + [str (a [2]) for a in ax])]
         r = common.run_main (argv)
@@ -137,6 +142,11 @@ def check (spec0):
             want = [(t, p) for p in ph for t in th]
             rows = (rep ['far'] or dict (rows = [])) ['rows']
             mon ['report.far'] = 1
+            if '--ff-distance' in argv:
+                arows = (rep ['far_abs'] or dict (rows = [])) ['rows']
+                if len (arows) != len (want):
+                    viol.append (dict (monitor = 'report.far', key = 'far-row-count'
+                                      , msg = '%d rows in the V/m table for %d x %d angles' % (len (arows), len (th), len (ph))))
             if len (rows) != len (want):
                 viol.append (dict (monitor = 'report.far', key = 'far-row-count'
                                   , msg = '%d PATTERN DATA rows for %d x %d angles' % (len (rows), len (th), len (ph))))
